@@ -362,5 +362,24 @@ pub fn run(run: &mut Run) -> &'static str {
         });
     let strat = prop_oneof![2 => any::<String>(), 3 => shaped, 2 => near, 4 => valid, 1 => "\\PC{0,40}"];
     run.proptest_part("strings", RULE, strat, cases, |text: &String, st: &mut Stats| check_hostile(text, st));
+
+    // (d) thorough: coverage-guided fuzzing of the reader (libFuzzer, oracle inside the target); every
+    // crashing input is then judged again here, in the checked build, through the same oracle
+    if run.tier == Tier::Thorough && run.replay.is_none() && run.only_parts.is_empty() {
+        let seeds: Vec<Vec<u8>> = crate::roots_data::REPO_FENS.iter().take(12).map(|f| f.as_bytes().to_vec()).collect();
+        match run_fuzz("fen_reader", run.seed, 3_000_000, 8, 120, &seeds) {
+            Ok((execs, corpus, crashes)) => {
+                run.extra.insert("fuzz".into(), json!({"target": "fen_reader", "engine": "libFuzzer (cargo-fuzz)", "executions": execs, "corpus_files": corpus, "crashing_inputs": crashes.len(), "jobs": 8}));
+                let texts: Vec<String> = crashes.iter().filter_map(|b| String::from_utf8(b.clone()).ok()).collect();
+                if !texts.is_empty() {
+                    run.exhaustive_part("fuzz_crashes", RULE, texts, |text: &String, st: &mut Stats| check_hostile(text, st));
+                }
+            }
+            Err(e) => {
+                println!("note: fuzz campaign skipped: {e}");
+                run.extra.insert("fuzz".into(), json!({"skipped": e}));
+            }
+        }
+    }
     RULE
 }
